@@ -83,6 +83,23 @@ def make_function(cfg, log, ctl):
     """fresh recorder function; log and ctl are shared lists/dicts.
     cfg['fn']: 'xy' (default) g(x, y=0) | 'var' g(x, *rest, **opts);
     cfg['result']: 'str' | 'tuple' | 'falsy' (None / 0 / '' for x = 1 / 2 / 3)"""
+    if cfg.get('fn') == 'rec':
+        # a recursive function: evaluating g(x) calls g(x-1) *through the wrapper* (re-entrancy; fibonacci-style use)
+        holder = ctl.setdefault('holder', {})
+
+        def g(x, y=0):
+            log.append((x, y))
+            if ctl.get('raise') is not None:
+                exc = ctl['raise']
+                ctl['raised'] = exc
+                raise exc
+            if isinstance(x, int) and x > 1 and holder.get('w') is not None:
+                ctl['nested'] = ctl.get('nested', 0) + 1
+                holder['w'](x - 1, y)
+            return 'g(%r,%r)' % (x, y)
+        g.log = log
+        g.ctl = ctl
+        return g
     if cfg.get('fn') == 'pkw':
         # a functools.partial that re-binds a keyword-only parameter which has its own default
         def g0(x, *, k=3):
@@ -311,6 +328,8 @@ class Sys(object):
                 keep = self.decorator
                 self.twin = self._decorate(self.tfn, tcache)
                 self.decorator = keep
+        if cfg.get('fn') == 'rec':
+            self.ctl.setdefault('holder', {})['w'] = self.wrapper
         # keys of the call table: computed once per configuration (a fresh system is built for every transition);
         # C18 separately checks at every state that key() still returns them
         ck = repr(sorted(cfg.items(), key=lambda kv: kv[0]))
@@ -548,6 +567,7 @@ def apply_event(S, ev, script=(), light=False, pre=None):
     tr.raised = None
     S.ctl.pop('raise', None)
     S.ctl.pop('raised', None)
+    S.ctl['nested'] = 0
     try:
         try:
             if kind == 'call':
@@ -644,6 +664,7 @@ def apply_event(S, ev, script=(), light=False, pre=None):
         _random.choice = saved
         S.ctl.pop('raise', None)
     tr.choices = list(S.chooser.trace)
+    tr.extra['nested'] = S.ctl.get('nested', 0)      # calls made through the wrapper while this call was being evaluated
     if light:
         return tr
     tr.logdelta = S.log[n0:]
@@ -680,6 +701,8 @@ def _redecorate(S):
     S.fn = make_function(S.cfg, S.log, S.ctl)
     S.cacheobj = cacheobj
     S.wrapper = S._decorate(S.fn, cacheobj)
+    if S.cfg.get('fn') == 'rec':
+        S.ctl.setdefault('holder', {})['w'] = S.wrapper
     S.orig = None
     S.orig_snap = None
     kmap = S._keys()
@@ -710,6 +733,9 @@ def replay(cfg, hist):
         if ev[0] == 'callx':
             for _ in range(ev[2]):
                 apply_event(S, ('call', ev[1]), script, light=True)
+        elif ev[0] == 'callseq':
+            for i in range(ev[1], ev[1] + ev[2]):
+                apply_event(S, ('call', i), script, light=True)
         else:
             apply_event(S, ev, script, light=True)
     return S
@@ -736,7 +762,7 @@ class Result(object):
 
 def cfg_name(cfg):
     keys = ('module', 'alg', 'maxsize', 'maxsize_pos', 'purge', 'keymap', 'backend', 'init',
-            'ignore', 'tol', 'deep', 'result', 'fn', 'args', 'nargs', 'narrow', 'twin')
+            'ignore', 'tol', 'deep', 'result', 'fn', 'args', 'nargs', 'narrow', 'twin', 'scale')
     return ' '.join('%s=%s' % (k, cfg[k]) for k in keys if k in cfg and cfg[k] not in (None, False))
 
 
@@ -764,6 +790,9 @@ def step_with_monitors(S, ev, script, monitors, quiet=False):
         for _ in range(ev[2]):
             # nothing happens between the elementary calls of a macro event: the previous post-state is the pre-state
             trs.append(apply_event(S, ('call', ev[1]), script, pre=trs[-1].post if trs else None))
+    elif ev[0] == 'callseq':
+        for i in range(ev[1], ev[1] + ev[2]):
+            trs.append(apply_event(S, ('call', i), script, pre=trs[-1].post if trs else None))
     else:
         trs.append(apply_event(S, ev, script))
     for tr in trs:
